@@ -81,7 +81,8 @@ pub trait WalletBackend<'ck, C, K> where C: NodeClient + 'ck, K: Keychain + 'ck 
         ensures
             r is Ok ==> self.state().has_keychain && self.state().valid_masks.contains(opt_key(mask)),
             (self.state().has_keychain && !self.state().valid_masks.contains(opt_key(mask))) ==> r == Err::<K, Error>(Error::InvalidKeychainMask),
-            !self.state().has_keychain ==> r == Err::<K, Error>(Error::KeychainDoesntExist);
+            !self.state().has_keychain ==> r == Err::<K, Error>(Error::KeychainDoesntExist),
+            r matches Err(e) ==> store_err(e);   // (LMDBBackend::keychain: keychain_errors_are_not_protocol_verdicts)
 
     fn calc_commit_for_cache(&mut self, keychain_mask: Option<&SecretKey>, amount: u64, id: &Identifier) -> (r: Result<Option<String>, Error>)
         ensures final(self).state() == old(self).state(),
